@@ -16,6 +16,7 @@ CONSTANTS
   MaxStack = 3
   MinParen = FALSE
   TwoPhase = FALSE
+  Rnd = FALSE
 INIT Init
 NEXT Next
 INVARIANT EmitInv
